@@ -259,6 +259,38 @@ class Body:
         # drop edges into cleanup blocks (should not exist on normal edges)
         for i in range(n):
             succ[i] = [s for s in succ[i] if not self.blocks[s]['c']]
+        # jump threading for materialised booleans (`matches!`, `&&`, `||`):
+        #   bbA: L = const c; goto bbS      bbS: (no assignments) switch L -> ...
+        # the edge A->S is redirected to the switch target selected by c (removes infeasible paths only)
+        for i in range(n):
+            b = self.blocks[i]
+            if b['c'] or b['t'][0] != 'goto':
+                continue
+            S = b['t'][1]
+            sb = self.blocks[S]
+            if sb['c'] or sb['t'][0] != 'switch':
+                continue
+            if any(st[0] in ('=', 'sd') for st in sb['s']):
+                continue
+            op = sb['t'][1]
+            if op[0] not in ('c', 'm') or op[1][1]:
+                continue
+            L = op[1][0]
+            val = None
+            for st in b['s']:
+                if st[0] == '=' and st[1][0] == L:
+                    if not st[1][1] and st[2][0] == 'use' and st[2][1][0] == 'k' and st[2][1][1] == 'int':
+                        val = st[2][1][2]
+                    else:
+                        val = None
+            if val is None:
+                continue
+            tgt = sb['t'][3]
+            for v, t in sb['t'][2]:
+                if str(v) == str(val):
+                    tgt = t
+            if not self.blocks[tgt]['c']:
+                succ[i] = [tgt]
         pred = [[] for _ in range(n)]
         for i in range(n):
             for s in succ[i]:
